@@ -11,15 +11,17 @@
    run, and (b) fault injection in the correspondence check.  Not proved, only sampled: termination and
    exception-freedom inside the epytext tokenizer, docutils, napoleon, the type tokenizer and node2stan.
 
-   _refuted / _partial pairs (genuine weaknesses of the unchanged code, see known_findings/C08.json):
-     C08_toc_total_refuted / _partial            format_toc lets any exception of to_node but NotImplementedError escape
+   _refuted / _partial pairs (weaknesses of the code, see known_findings/C08.json):
      C08_isolation_split_field_refuted           a split field's summary failure overwrites its parent's cached summary
-                                                 (C08_isolation_partial / _frame_partial / _other_object_partial: objects that render their own docstring)
-     C08_epytext_to_node_refuted / _partial      ParsedEpytextDocstring.to_node caches an empty document before a failing
-                                                 conversion: the failure is raised once, then silently lost
+                                                 (C08_isolation_partial / _frame_partial / _other_object_partial: objects that
+                                                 render their own docstring)                                 -- still open
      C08_reported_parse_error_refuted            a parser raising ParseError without recording it is not reported
                                                  (C08_reported_against_object is the _partial: under the parser contract,
-                                                 which epytext meets by C08_epytext_meets_contract) *)
+                                                 which epytext meets by C08_epytext_meets_contract)          -- oracle contract
+     C08_epytext_to_node_old_refuted             before /repo ef2e650 ParsedEpytextDocstring.to_node cached an empty document
+                                                 before a failing conversion (now: C08_epytext_to_node_deterministic)  -- fixed
+     C08_get_toc_old_refuted                     before ef2e650 get_toc let any exception of to_node but NotImplementedError
+                                                 escape (now: C08_toc_total)                                  -- fixed *)
 From Coq Require Import ZArith NArith List Bool.
 From PydoctorVerif Require Import Base.Sexp Model.Barrier Gen.Skeleton Proofs.BarrierProofs
      Model.DocFlow Spec.DocContract Proofs.DocFlowProofs.
@@ -28,14 +30,17 @@ Local Open Scope N_scope.
 
 (* ================================================================== (a) exception skeletons *)
 Definition c08_skeletons : list (list sk) :=
-  [sk_parse_docstring; sk_safe_to_stan; sk_parseddocstring_get_summary; sk_parseddocstring_get_toc; sk_format_signature].
+  [sk_parse_docstring; sk_safe_to_stan; sk_parseddocstring_get_summary; sk_parseddocstring_get_toc;
+   sk_lunrindexwriter_format_docstring; sk_format_signature].
 
 Lemma C08_skeletons_checked :
   closed_table ancestors_table = true /\
   forallb (total ancestors_table allowed_table) c08_skeletons = true.
 Proof. vm_compute. split; reflexivity. Qed.
 
-(* parse_docstring, safe_to_stan, ParsedDocstring.get_summary, get_toc, format_signature as they are in /repo NOW:
+(* parse_docstring, safe_to_stan, ParsedDocstring.get_summary, get_toc, LunrIndexWriter.format_docstring,
+   format_signature as they are in /repo NOW (to_node may raise ANY Exception in get_summary, get_toc and the search
+   index writer):
    no exception within the oracle contract (allowed_table) escapes.  A removed or narrowed `except`, or a risky
    call moved out of its `try`, makes this proof fail. *)
 Theorem C08_barrier_total :
@@ -47,16 +52,18 @@ Proof.
   exact (total_sound ancestors_table allowed_table (closed_trans ancestors_table Hc) b r (Ht b Hin) He).
 Qed.
 
-(* the contract of get_toc's to_node call is "NotImplementedError only"; widened to Exception (what get_summary's
-   contract says of the very same callee) the analysis no longer proves get_toc total *)
-Definition widen_not_implemented (t : list (N * list N)) : list (N * list N) :=
-  map (fun row => match snd row with
-                  | [x] => if N.eqb x c_NotImplementedError then (fst row, [c_Exception]) else row
-                  | _ => row
-                  end) t.
+(* the handler really has to be `except Exception`: with any narrower class (here ImportError, the other class the
+   C08 functions name) the analysis no longer proves get_toc / the search index writer total under the same contract
+   -- which is how reverting ef2e650 (back to `except NotImplementedError`) breaks C08_barrier_total *)
+Definition narrow_handlers (b : list sk) : list sk :=
+  map (fun s => match s with
+                | STry body [([x], h)] orelse fin =>
+                  if N.eqb x c_Exception then STry body [([c_ImportError], h)] orelse fin else s
+                | _ => s
+                end) b.
 
-Lemma C08_get_toc_contract_is_needed :
-  total ancestors_table (widen_not_implemented allowed_table) sk_parseddocstring_get_toc = false.
+Lemma C08_get_toc_handler_is_needed :
+  total ancestors_table allowed_table (narrow_handlers sk_parseddocstring_get_toc) = false.
 Proof. vm_compute. reflexivity. Qed.
 
 (* ================================================================== (b) the fallback / reporting logic *)
@@ -184,11 +191,51 @@ Proof. exact to_stan_failure_fallback. Qed.
    reported against the parent. *)
 Theorem C08_to_stan_failure_split_field :
   forall (O : oracles) (c : config) (st : state) (o q : oid) (p : N),
-    docstring c o = None -> pdoc st o = Some (PMark p) -> parent c o = Some q -> to_stan O p = None ->
+    docstring c o = None -> inherits c o = [] -> pdoc st o = Some (PMark p) -> parent c o = Some q ->
+    to_stan O p = None ->
     let r := format_docstring O c st o in
     d_body (fst r) = BStan (match docstring c q with Some t => SPre t | None => SBroken end) /\
     in_parse_errors (snd r) SEC_DOCSTRING q.
 Proof. exact to_stan_failure_split_field. Qed.
+
+(* The renderer failing, WHATEVER was called for the object before (format_summary, format_toc, format_docstring, in
+   any order and any number of times -- the call order that hid the failure before ef2e650): format_docstring shows
+   plaintext(docstring) and the object is in parse_errors. *)
+Theorem C08_to_stan_failure_any_order :
+  forall (O : oracles) (c : config) (st : state) (o : oid) (a : N) (t : text) (p : N) (errs : list perr)
+         (prior : list opk),
+    docstring c o = Some (a :: t) -> pdoc st o = None ->
+    effective_parser O c (applicable_format c o) (a :: t) = PRok (PMark p) errs -> to_stan O p = None ->
+    let st1 := fold_left (fun s k => snd (run_opk O c s k o)) prior st in
+    d_body (fst (format_docstring O c st1 o)) = BStan (SPre (a :: t)) /\
+    in_parse_errors (snd (format_docstring O c st1 o)) SEC_DOCSTRING o.
+Proof. exact to_stan_failure_any_order. Qed.
+
+(* Inherited docstrings: o has no docstring, its first documented source is b.  The parser giving up: the whole
+   text of b's docstring is shown for o, the problem is recorded against b (the owner of the text), and o itself
+   is not added to parse_errors. *)
+Theorem C08_inherited_fallback_is_whole_text :
+  forall (O : oracles) (c : config) (st : state) (o b : oid) (a : N) (t : text),
+    docstring c o = None -> get_docstring_from c (inherits c o) = (Some (a :: t), Some b) -> pdoc st o = None ->
+    gives_up O c (applicable_format c b) (a :: t) ->
+    format_docstring O c st o =
+    ({| d_body := BStan (SPre (a :: t)); d_fields := [] |}, inherited_state O c st o b (a :: t)) /\
+    (raised_error_is_recorded O -> in_parse_errors (inherited_state O c st o b (a :: t)) SEC_DOCSTRING b) /\
+    (forall sec, mem_pe sec o (parse_errors (inherited_state O c st o b (a :: t))) = true ->
+                 o <> b -> mem_pe sec o (parse_errors st) = true).
+Proof. exact inherited_fallback_is_whole_text. Qed.
+
+(* ... the renderer failing for an inherited docstring: the text shown is the SOURCE's docstring (never BROKEN when
+   the source has one), reported against the source, and o's own membership in parse_errors does not change. *)
+Theorem C08_inherited_to_stan_failure :
+  forall (O : oracles) (c : config) (st : state) (o b : oid) (d : option text) (p : N),
+    docstring c o = None -> get_docstring_from c (inherits c o) = (d, Some b) ->
+    pdoc st o = Some (PMark p) -> to_stan O p = None ->
+    let r := format_docstring O c st o in
+    d_body (fst r) = BStan (match docstring c b with Some t => SPre t | None => SBroken end) /\
+    in_parse_errors (snd r) SEC_DOCSTRING b /\
+    (o <> b -> forall sec, mem_pe sec o (parse_errors (snd r)) = mem_pe sec o (parse_errors st)).
+Proof. exact inherited_to_stan_failure. Qed.
 
 (* The summary's renderer raising: BROKEN is returned and remembered, nothing is reported (report=False), nothing
    else changes, and the next call returns BROKEN without touching the state. *)
@@ -227,32 +274,44 @@ Theorem C08_epytext_meets_contract :
     epytext_presult errors p = PR_parse_error errs -> errs <> [].
 Proof. exact epytext_presult_contract. Qed.
 
-(* format_toc: the ONLY way it raises is to_node raising something else than NotImplementedError in get_toc. *)
-Theorem C08_toc_total_partial :
+(* format_toc never raises, for EVERY behaviour of to_node / the toc builder / the toc renderer, and changes
+   nothing but what ensure_parsed_docstring changes (a failing toc renderer shows BROKEN, report=False). *)
+Theorem C08_toc_total :
   forall (O : oracles) (c : config) (st : state) (o : oid),
-    fst (format_toc O c st o) = Raised <->
-    toc_enabled c = true /\
-    exists p, pdoc (snd (ensure_parsed_docstring O c st o)) o = Some (PMark p) /\ toc_of O p = TocRaise.
-Proof. exact toc_raises_iff. Qed.
+    fst (format_toc O c st o) <> Raised /\
+    snd (format_toc O c st o) = snd (ensure_parsed_docstring O c st o).
+Proof. intros O c st o. split; [apply toc_total|apply toc_state]. Qed.
 
-(* ParsedEpytextDocstring.to_node: when the conversion of the tree does not raise, to_node is deterministic (the
-   same document on every call, never an exception): the oracle-determinism assumption of the theorems above holds
-   for epytext. *)
-Theorem C08_epytext_to_node_partial :
-  forall (has_tree : bool) (d : N) (document : option N),
-    let r1 := epytext_to_node has_tree (ConvOk d) document in
-    let r2 := epytext_to_node has_tree (ConvOk d) (snd r1) in
-    fst r2 = fst r1 /\ snd r2 = snd r1 /\ fst r1 <> Raised.
-Proof. exact epytext_to_node_stable. Qed.
+(* REFUTED for the code before ef2e650 (get_toc_old): to_node raising e.g. AssertionError escaped. *)
+Theorem C08_get_toc_old_refuted :
+  exists (O : oracles) (pd : parsed), get_toc_old O pd = Raised /\ get_toc O pd = Ok None.
+Proof.
+  exists {| parser := fun _ _ => PR_ok 1 []; ptypes := fun p => PT_ok p []; to_stan := fun p => Some p;
+            fields_of := fun _ => []; var_fields := fun _ => []; summary_node := fun _ => SumNone;
+            summary_plain := fun _ => SumNone; toc_of := fun _ => TocRaise |}, (PMark 1).
+  split; reflexivity.
+Qed.
 
-(* REFUTED: to_node is not deterministic when the conversion raises: self._document was assigned before the
-   conversion, so the FIRST call raises and the SECOND returns an EMPTY document without any error.  Whoever calls
-   first (get_summary: caught, not reported) hides the failure from format_docstring: the docstring is rendered
-   as nothing and nothing is reported. *)
-Theorem C08_epytext_to_node_refuted :
+(* ParsedEpytextDocstring.to_node is deterministic whatever the conversion of the tree does (the second call
+   returns / raises what the first did), and a failing conversion leaves nothing cached: the oracle-determinism
+   assumption of the theorems above holds for epytext. *)
+Theorem C08_epytext_to_node_deterministic :
+  forall (has_tree : bool) (conv : convres) (document : option N),
+    let r1 := epytext_to_node has_tree conv document in
+    fst (epytext_to_node has_tree conv (snd r1)) = fst r1.
+Proof. exact epytext_to_node_deterministic. Qed.
+
+Theorem C08_epytext_to_node_fails_alike :
+  epytext_to_node true ConvRaise None = (Raised, None).
+Proof. exact epytext_to_node_fails_alike. Qed.
+
+(* REFUTED for the code before ef2e650 (epytext_to_node_old): the FIRST call raised and the SECOND returned an
+   EMPTY document without any error: whoever called first (get_summary: caught, not reported) hid the failure from
+   format_docstring, which then rendered nothing and reported nothing. *)
+Theorem C08_epytext_to_node_old_refuted :
   exists (conv : convres),
-    let r1 := epytext_to_node true conv None in
-    let r2 := epytext_to_node true conv (snd r1) in
+    let r1 := epytext_to_node_old true conv None in
+    let r2 := epytext_to_node_old true conv (snd r1) in
     fst r1 = Raised /\ fst r2 = Ok EMPTY_DOCUMENT.
 Proof. exists ConvRaise. split; reflexivity. Qed.
 
@@ -288,12 +347,14 @@ Definition badO : oracles :=
      summary_plain := fun _ => SumNone;
      toc_of := fun _ => TocEmpty |}.
 
-(* objects 1..5 have the one-character docstrings [1]..[5]; object 6 is a split field of object 5 *)
+(* objects 1..5 have the one-character docstrings [1]..[5]; object 6 is a split field of object 5; object 7 has no
+   docstring and overrides 8 (undocumented) and 2 *)
 Definition exC : config :=
   {| sys_fmt := 0; processtypes_on := false; toc_enabled := true;
      docstring := fun o => if (1 <=? o) && (o <=? 5) then Some [o] else None;
      parent := fun o => if o =? 6 then Some 5 else None;
-     mod_fmt := fun _ => None |}.
+     mod_fmt := fun _ => None;
+     inherits := fun o => if o =? 7 then [8; 2] else [] |}.
 
 Definition st0 : state := mkState [] [] (fun _ => None) (fun _ => None).
 (* object 6 got its parsed_docstring from extract_fields(5) *)
@@ -336,14 +397,9 @@ Theorem C08_isolation_split_field_refuted :
     fst (format_summary O c (snd (format_summary O c st o)) o') = SBroken.
 Proof.
   exists exO, exC, st_split, 6, 5. split; [discriminate|]. split; [left; discriminate|]. split.
-  - intros [H|H]; [apply H; reflexivity|discriminate].
+  - intros [H|(H & _)]; [apply H; reflexivity|discriminate].
   - split; vm_compute; reflexivity.
 Qed.
-
-(* REFUTED: format_toc is not total: to_node raising e.g. ValueError inside get_toc escapes. *)
-Theorem C08_toc_total_refuted :
-  exists (O : oracles) (c : config) (st : state) (o : oid), fst (format_toc O c st o) = Raised.
-Proof. exists exO, exC, st0, 3. vm_compute. reflexivity. Qed.
 
 (* ================================================================== non-vacuity *)
 Example C08_fallback_hypotheses_satisfiable :
@@ -396,6 +452,24 @@ Example C08_summary_hypotheses_satisfiable :
    pdoc st 4 = Some (PMark 5) /\ docstring exC 4 = Some [4] /\ psum st 4 = None /\
    fst (format_summary exO exC st 4) = SBroken).
 Proof. cbn zeta. repeat split; vm_compute; reflexivity. Qed.
+
+Example C08_inherited_hypotheses_satisfiable :
+  docstring exC 7 = None /\ get_docstring_from exC (inherits exC 7) = (Some [2], Some 2) /\ pdoc st0 7 = None /\
+  gives_up exO exC (applicable_format exC 2) [2] /\
+  d_body (fst (format_docstring exO exC st0 7)) = BStan (SPre [2]) /\
+  parse_errors (snd (format_docstring exO exC st0 7)) = [(SEC_DOCSTRING, 2)] /\
+  inherits exC 6 = [] /\
+  (let st := set_pdoc st0 7 (Some (PMark 20)) in
+   pdoc st 7 = Some (PMark 20) /\ to_stan exO 20 = None /\
+   d_body (fst (format_docstring exO exC st 7)) = BStan (SPre [2])) /\
+  (* C08_to_stan_failure_any_order: summary and toc requested first *)
+  effective_parser exO exC (applicable_format exC 5) [5] = PRok (PMark 20) [] /\
+  d_body (fst (format_docstring exO exC (fold_left (fun s k => snd (run_opk exO exC s k 5)) [OpSummary; OpToc] st0) 5))
+  = BStan (SPre [5]).
+Proof.
+  split; [reflexivity|]. split; [reflexivity|]. split; [reflexivity|]. split; [exact ex_gives_up_2|].
+  cbn zeta. repeat split; vm_compute; reflexivity.
+Qed.
 
 Example C08_epytext_hypotheses_satisfiable :
   In (2, true) [(1, false); (2, true); (3, true)] /\
